@@ -52,6 +52,11 @@ def plan_for(tier: str, seed: int, i: int) -> dict:
     if level & 2:
         proto.update({"priv": rng.choice(["verifstream", "verifstream2"]),
                       "priv_pass": gen.gen_bytes(rng, rng.choice([pwlen, 8, 1 + (pwlen * 7) % 300]))})
+    srng = rng_for(seed, ID, tier + ":pw", i)
+    if level & 1 and srng.random() < 0.06:
+        proto["auth_pass"] = gen.gen_structured_passphrase(srng)
+        if level & 2 and srng.random() < 0.5:
+            proto["priv_pass"] = gen.gen_structured_passphrase(srng)
     payload = (i // 2) % 281 if i % 2 == 0 else rng.randrange(0, 281)
     op = rng.choice(OPS)
     ctx = gen.gen_bytes(rng, rng.choice([0, 0, 0, 5, 20]))
